@@ -131,6 +131,13 @@ def components(rng, quick):
                     out.append(torch.tensor([float((v >> j) & 1) for j in range(tail)] + m))
             return out
         return f
+    # the encoders' own correcting inverses on received words with errors (not only on codewords), through both public methods
+    first = (lambda r: r[0] if isinstance(r, tuple) else r)
+    C.append(Comp("HammingCodeEncoder.inverse_encode(received)", "HammingCodeEncoder", lambda: E.HammingCodeEncoder(3), recv_pool(ham, (0, 1, 1)), call=lambda o, x: first(o.inverse_encode(x)), dense=ball(ham, 1)))
+    C.append(Comp("HammingCodeEncoder.extract_message(received)", "HammingCodeEncoder", lambda: E.HammingCodeEncoder(3, extended=True), recv_pool(E.HammingCodeEncoder(3, extended=True), (0, 1, 1)),
+                  call=lambda o, x: first(o.extract_message(x))))
+    rm13 = E.ReedMullerCodeEncoder(1, 3)
+    C.append(Comp("ReedMullerCodeEncoder.inverse_encode(received)", "ReedMullerCodeEncoder", lambda: E.ReedMullerCodeEncoder(1, 3), recv_pool(rm13, (0, 1, 1)), call=lambda o, x: first(o.inverse_encode(x))))
     rep31 = E.RepetitionCodeEncoder(31)
     C.append(Comp("BruteForceMLDecoder/Repetition(31)", "BruteForceMLDecoder", lambda: D.BruteForceMLDecoder(E.RepetitionCodeEncoder(31)), recv_pool(rep31), dense=tail_twins(31, 15)))
     rm15 = E.ReedMullerCodeEncoder(1, 5)
@@ -199,6 +206,9 @@ class Ids:
         return len(self.vals)
 
 
+_HELD = {}
+
+
 def do_call(comp, obj, members, layout, pool, ids):
     """One recorded call. Returns event fields."""
     rows = [pool[m - 1] for m in members]
@@ -211,7 +221,8 @@ def do_call(comp, obj, members, layout, pool, ids):
     else:  # 3-D
         X = torch.stack(rows).unsqueeze(0)
     before = X.clone()
-    ev = {"members": list(members), "layout": layout, "results": [], "raised": False, "input_unchanged": True, "error": ""}
+    ev = {"members": list(members), "layout": layout, "results": [], "raised": False, "input_unchanged": True, "earlier_result_unchanged": True, "error": ""}
+    held = _HELD.get(id(obj))          # the tensor this object returned last time, and what it held then
     try:
         try:
             Y = comp.call(obj, X)
@@ -221,6 +232,11 @@ def do_call(comp, obj, members, layout, pool, ids):
             X = X.unsqueeze(0)              # a component may reject 1-D input; a single sample is then a batch of one
             before = X.clone()
             Y = comp.call(obj, X)
+        if held is not None and held[0] is obj:
+            ev["earlier_result_unchanged"] = bool(held[1].shape == held[2].shape and torch.equal(torch.nan_to_num(torch.view_as_real(held[1]) if held[1].is_complex() else held[1].double() if held[1].is_floating_point() else held[1]),
+                                                                                              torch.nan_to_num(torch.view_as_real(held[2]) if held[2].is_complex() else held[2].double() if held[2].is_floating_point() else held[2])))
+        if torch.is_tensor(Y):
+            _HELD[id(obj)] = (obj, Y, Y.detach().clone())
         Y = Y.reshape(len(members), -1)
         ev["results"] = [ids.get(Y[i]) for i in range(len(members))]
     except Exception as ex:
